@@ -6,8 +6,8 @@
 From Coq Require Import Reals.
 From Coquelicot Require Import Coquelicot.
 From OV.base Require Import Num.
-From OV.model Require Import M_C08.
-From OV.proofs Require Import L_C08.
+From OV.model Require Import M_C08 M_C08b.
+From OV.proofs Require Import L_C08 L_C08b.
 Local Open Scope R_scope.
 Notation M := (mat R).
 
@@ -59,8 +59,34 @@ Theorem C08_objective_multibranch_equilibrium_partial : forall p Q H, rotation Q
 Proof. exact mbeq_objective. Qed.
 Theorem C08_isotropic_multibranch_equilibrium_partial : forall p Q H, rotation Q -> 0 < JJ H -> E_mb_eq p (rotR Q H) = E_mb_eq p H.
 Proof. exact mbeq_isotropic. Qed.
-(* NOT PROVED: objectivity / isotropy of the complete three-branch energy E_mb (each Prony branch has the structure of the
-   single-branch tail proved above; not done for lack of time).  Exercised by the conclusion checks on the implementation. *)
+(* the complete three-branch (Prony) incremental energy E_mb (equilibrium + 3 x (non-equilibrium + dt * dissipation potential)), for
+   every admissible viscous state (det Fv_i <> 0), dt > 0 and relaxation times > 0 (mb_taus_pos); lss is arbitrary for objectivity *)
+Theorem C08_objective_multibranch : forall lss p Fv1 Fv2 Fv3 dt Q H,
+  rotation Q -> 0 < JJ H -> mdet Fv1 <> 0 -> mdet Fv2 <> 0 -> mdet Fv3 <> 0 -> 0 < dt -> mb_taus_pos p ->
+  E_mb lss p Fv1 Fv2 Fv3 dt (rotL Q H) = E_mb lss p Fv1 Fv2 Fv3 dt H.
+Proof. exact mb_objective. Qed.
+(* isotropy: the viscous distortions are reference-configuration tensors and rotate with it (Fv -> Q^T Fv Q); virgin state as a corollary *)
+Theorem C08_isotropic_multibranch : forall lss p Fv1 Fv2 Fv3 dt Q H, LogSqrtSpec lss ->
+  rotation Q -> 0 < JJ H -> mdet Fv1 <> 0 -> mdet Fv2 <> 0 -> mdet Fv3 <> 0 -> 0 < dt -> mb_taus_pos p ->
+  E_mb lss p (conj Q Fv1) (conj Q Fv2) (conj Q Fv3) dt (rotR Q H) = E_mb lss p Fv1 Fv2 Fv3 dt H.
+Proof. exact mb_isotropic. Qed.
+Theorem C08_isotropic_multibranch_virgin : forall lss p dt Q H, LogSqrtSpec lss -> rotation Q -> 0 < JJ H -> 0 < dt -> mb_taus_pos p ->
+  E_mb lss p mid mid mid dt (rotR Q H) = E_mb lss p mid mid mid dt H.
+Proof. exact mb_isotropic_virgin. Qed.
+(* E_mb3 (model/M_C08b.v) is what the correspondence stream evaluates at binary64: the same function, for every carrier *)
+Theorem C08_multibranch_three_call_sites : forall (T : Type) (NT : Num T) (lss : mat T -> mat T) p Fv1 Fv2 Fv3 dt H,
+  E_mb lss p Fv1 Fv2 Fv3 dt H = E_mb3 lss lss lss p Fv1 Fv2 Fv3 dt H.
+Proof. exact (@E_mb_E_mb3). Qed.
+(* isotropy of the other stateful models for EVERY admissible internal state (rotated along with the reference configuration) *)
+Theorem C08_isotropic_hyperviscoelastic : forall lss p Fv dt Q H, LogSqrtSpec lss -> rotation Q -> 0 < JJ H -> mdet Fv <> 0 -> 0 < dt ->
+  (let '(_, _, _, tau) := p in 0 < tau) -> E_hv lss p (conj Q Fv) dt (rotR Q H) = E_hv lss p Fv dt H.
+Proof. exact hv_isotropic. Qed.
+Theorem C08_isotropic_j2_logarithmic : forall lss p eqps Fp Q H, LogSqrtSpec lss -> rotation Q -> mdet Fp <> 0 ->
+  E_j2_log lss p eqps (conj Q Fp) (rotR Q H) = E_j2_log lss p eqps Fp H.
+Proof. exact j2_log_isotropic. Qed.
+Theorem C08_isotropic_j2_seth_hill : forall pw p eqps Ep Q H, PowSpec pw -> rotation Q ->
+  E_j2_seth_hill pw p eqps (conj Q Ep) (rotR Q H) = E_j2_seth_hill pw p eqps Ep H.
+Proof. exact j2_seth_hill_isotropic. Qed.
 Theorem C08_objective_phasefield : forall lss p phase g0 g1 g2 Q H, rotation Q ->
   E_pf_log lss p phase g0 g1 g2 (rotL Q H) = E_pf_log lss p phase g0 g1 g2 H.
 Proof. exact pf_log_objective. Qed.
@@ -82,6 +108,8 @@ Theorem C08_rest_hyperviscoelastic : forall lss p dt, LogSqrtSpec lss -> 0 < dt 
   E_hv lss p mid dt mzero = 0.
 Proof. exact hv_rest. Qed.
 Theorem C08_rest_multibranch_equilibrium_partial : forall p, E_mb_eq p mzero = 0. Proof. exact mbeq_rest. Qed.
+Theorem C08_rest_multibranch : forall lss p dt, LogSqrtSpec lss -> 0 < dt -> mb_taus_pos p -> E_mb lss p mid mid mid dt mzero = 0.
+Proof. exact mb_rest. Qed.
 Theorem C08_rest_phasefield_logarithmic : forall lss p, LogSqrtSpec lss -> E_pf_log lss p 0 0 0 0 mzero = 0. Proof. exact pf_log_rest. Qed.
 Theorem C08_rest_phasefield_linear : forall p, E_pf_linear p 0 0 0 0 mzero = 0. Proof. exact pf_linear_rest. Qed.
 (* J2 with 'seth hill' kinematics (strain (C^(1/4) - I)/(1/2), C = F^T F since /repo 60fe5f7 repaired defect F4) *)
@@ -125,6 +153,10 @@ Example C08_nonvacuous :
   rotation (mk 0 (-1) 0 1 0 0 0 0 1) /\ 0 < JJ (mk (/ 2) (/ 4) 0 0 (/ 3) 0 0 0 0) /\ LogSqrtSpec (fun A => mscal (/ 2) (msub A mid))
   /\ PowSpec (fun A _ => A) /\ mdet (@mid R NumR) <> 0.
 Proof. exact nonvacuous_witness. Qed.
+Example C08_nonvacuous_multibranch :
+  mb_taus_pos (8, 3 / 2, 3, 7 / 10, 2, 7, 1, 70) /\ mdet (mk 1 (/ 4) 0 0 1 0 0 (/ 5) 1) <> 0
+  /\ conj (mk 0 (-1) 0 1 0 0 0 0 1) (mk 1 (/ 4) 0 0 1 0 0 (/ 5) 1) <> mk 1 (/ 4) 0 0 1 0 0 (/ 5) 1.
+Proof. exact nonvacuous_witness_mb. Qed.
 
 Print Assumptions C08_objective_neohookean_adagio.
 Print Assumptions C08_isotropic_linear_elastic_logarithmic.
@@ -132,3 +164,4 @@ Print Assumptions C08_isotropic_hyperviscoelastic_virgin.
 Print Assumptions C08_rest_stress_gent.
 Print Assumptions C08_rest_j2_seth_hill.
 Print Assumptions C08_isotropic_phasefield.
+Print Assumptions C08_isotropic_multibranch.
